@@ -177,10 +177,21 @@ def gen(rng: random.Random, k: int, tier: str) -> dict:
             heavy = cur[0] in ("jax", "tensorflow")
             if heavy and rng.random() < 0.6:
                 continue
-            what = rng.choices(["fit", "fixed", "hypotest"], weights=[3, 2, 1 if not heavy else 0.3])[0]
-            ops.append({"op": "infer", "id": oid, "what": what,
-                        "grad": rng.choice([None, None, True, False]), "stitch": rng.random() < 0.3})
-            budget -= {"fit": 3, "fixed": 3, "hypotest": 12}[what] * COST[cur[0]] * (3 if cur[0] == "jax" else 1)
+            light = 0.0 if heavy else 1.0
+            what = rng.choices(["fit", "fixed", "hypotest", "twice_nll", "teststat", "uncert", "hypotest_q", "toys", "limit"],
+                               weights=[3, 2, 1 if not heavy else 0.3, 1.0, 1.0 if not heavy else 0.3, 0.8 * (cur[2] == "minuit"),
+                                        0.5 * light, 0.5 * light, 0.25 * light])[0]
+            op = {"op": "infer", "id": oid, "what": what,
+                  "grad": rng.choice([None, None, True, False]), "stitch": rng.random() < 0.3}
+            if what in ("teststat", "hypotest_q"):
+                op["test_stat"] = rng.choice(["qtilde", "q", "q0", "tmu", "tmu_tilde"] if what == "teststat" else ["q", "q0"])
+                op["poi"] = rng.choice([0.5, 1.0, 2.0])
+            if what == "toys":
+                op["seed"] = rng.randrange(1 << 30)
+                op["ntoys"] = rng.randint(3, 6)
+            ops.append(op)
+            budget -= {"fit": 3, "fixed": 3, "hypotest": 12, "twice_nll": 1, "teststat": 6, "uncert": 4, "hypotest_q": 12, "toys": 30, "limit": 50}[what] \
+                * COST[cur[0]] * (3 if cur[0] == "jax" else 1)
         elif kind == "drop":
             oid = rng.choice(sorted(live))
             del live[oid]
@@ -682,11 +693,43 @@ class World:
             kw["do_stitch"] = True
         what = op["what"]
 
+        tl = pyhf.tensorlib
+        init, bounds, fixed = twin.config.suggested_init(), twin.config.suggested_bounds(), twin.config.suggested_fixed()
+
         def run(m):
             if what == "fit":
                 return list(pyhf.infer.mle.fit(data, m, return_fitted_val=True, **kw))
             if what == "fixed":
                 return list(pyhf.infer.mle.fixed_poi_fit(1.0, data, m, return_fitted_val=True, **kw))
+            if what == "twice_nll":
+                return pyhf.infer.mle.twice_nll(tl.astensor(np.asarray(init, dtype=np.float64)), tl.astensor(data), m)
+            if what == "teststat":
+                ts = op["test_stat"]
+                f = getattr(pyhf.infer.test_statistics, {"qtilde": "qmu_tilde", "q": "qmu", "q0": "q0", "tmu": "tmu", "tmu_tilde": "tmu_tilde"}[ts])
+                mu = 0.0 if ts == "q0" else op["poi"]
+                return f(mu, data, m, init, bounds, fixed)
+            if what == "uncert":
+                # only meaningful where the optimiser offers it (minuit); otherwise both must fail alike
+                return pyhf.infer.mle.fit(data, m, return_uncertainties=True)
+            if what == "hypotest_q":
+                ts = op["test_stat"]
+                return list(pyhf.infer.hypotest(0.0 if ts == "q0" else op["poi"], data, m, test_stat=ts, return_tail_probs=True))
+            if what == "toys":
+                # the simulator owns the random draws: same seed before the run on the old object and on the twin
+                np.random.seed(op["seed"] % (2 ** 32))
+                if self.reg[0] == "pytorch":
+                    import torch
+
+                    torch.manual_seed(op["seed"])
+                elif self.reg[0] == "tensorflow":
+                    import tensorflow as tf
+
+                    tf.random.set_seed(op["seed"])
+                return list(pyhf.infer.hypotest(1.0, data, m, calctype="toybased", ntoys=op["ntoys"], track_progress=False,
+                                                return_tail_probs=True))
+            if what == "limit":
+                obs, exp = pyhf.infer.intervals.upper_limits.upper_limit(data, m, scan=np.linspace(0.0, 4.0, 5))
+                return [obs, list(exp)]
             cls, exp = pyhf.infer.hypotest(1.0, data, m, return_expected_set=True)
             return [cls, list(exp)]
 
@@ -697,4 +740,5 @@ class World:
             ro = self._observe(lambda: run(obj))
             rt = self._observe(lambda: run(twin))
         rel = 1e-10 if self.reg[1] == "64b" else 1e-4
+        ctx.probe(f"infer_{what}_{'ran' if rt[0] == 'ok' else 'twin_raises'}")
         return self._cmp("model", "infer_" + what, ro, rt, rel=rel)
